@@ -528,12 +528,24 @@ static int do_polloff(int mode, bool pool, char* argv0)
         }
         run_on_pika([] { mpi::stop_polling(); });
     }
-    called = 0;
-    MPI_Request r;
-    MPI_Grequest_start(gq_query, gq_free, gq_cancel, nullptr, &r);
-    MPI_Grequest_complete(r);
-    run_on_pika([r] { mpi::detail::add_request_callback([](int) { ++called; }, r); });
-    std::this_thread::sleep_for(150ms);
+    // A worker that fetched the polling function just before stop_polling cleared it may still
+    // perform that one poll after stop_polling returned (benign, not against the property).  So:
+    // let such stragglers drain first, and only report "still polling" when two independent
+    // requests, registered well apart, are both picked up after polling was disabled.
+    int picked = 0;
+    for (int attempt = 0; attempt < 2; ++attempt)
+    {
+        std::this_thread::sleep_for(400ms);
+        called = 0;
+        MPI_Request r;
+        MPI_Grequest_start(gq_query, gq_free, gq_cancel, nullptr, &r);
+        MPI_Grequest_complete(r);
+        run_on_pika([r] { mpi::detail::add_request_callback([](int) { ++called; }, r); });
+        std::this_thread::sleep_for(150ms);
+        if (called.load() == 0) break;
+        ++picked;
+    }
+    called = (picked == 2) ? 1 : 0;
     std::printf("%s polled_while_on=%d polled_after_off=%d\n", g_hang_line.c_str(), on, called.load());
     std::fflush(stdout);
     g_finished = true;
